@@ -11,6 +11,7 @@ intact after a second call" are evaluated by the driver over the monitored calls
 """
 import copy
 import warnings
+import weakref
 
 import numpy as np
 
@@ -96,11 +97,12 @@ PARAM = {'arias': 'acc_sig', 'cav': 'acc_sig', 'isv': 'acc_sig', 'abs_acc': 'asi
 PURITY = 'purity.signal-unchanged-by-call'
 OWNS = 'ownership.result-owns-its-data'
 DERIVED = 'purity.derived-object-independent'
+DT_KEPT = 'object.dt == dt given (bit-for-bit)'
 TWIN = 'purity.twin-objects+caller-array'
 STATE = 'state.first-result-intact'
 
 
-def _mins(f, cd, rel, pad, pur, twin, state, derived):
+def _mins(f, cd, rel, pad, pur, twin, state, derived, ctor):
     m = {}
     for k in ('arias', 'cav', 'isv', 'abs_acc', 'abs_vel', 'cad', 'uke'):
         m[FINAL_CLAUSE[k]] = f
@@ -110,13 +112,13 @@ def _mins(f, cd, rel, pad, pur, twin, state, derived):
               'cavdp.in[0,CAV/g]': int(cd * 0.5), 'cavdp.monotone': int(cd * 0.5), 'cavdp.length': int(cd * 0.5),
               'cavdp.gate-decided-exactly': int(cd * 0.06),
               'relation.sign': rel, 'relation.scale.pow2': rel, 'relation.scale.random': rel, 'relation.zero-pad': pad,
-              PURITY: pur, OWNS: pur, TWIN: twin, STATE: state, DERIVED: derived})
+              PURITY: pur, OWNS: pur, TWIN: twin, STATE: state, DERIVED: derived, DT_KEPT: ctor})
     return m
 
 
 # about 50% of what a normal run reaches
-MIN_EVALS = {'quick': _mins(5500, 1600, 8000, 1500, 45000, 120, 900, 150),
-             'thorough': _mins(110000, 27000, 160000, 30000, 900000, 2400, 18000, 3000)}
+MIN_EVALS = {'quick': _mins(5500, 1600, 8000, 1500, 45000, 120, 900, 150, 8000),
+             'thorough': _mins(110000, 27000, 160000, 30000, 900000, 2400, 18000, 3000, 160000)}
 
 
 def _sig(args, kwargs):
@@ -325,11 +327,49 @@ def _same(a, b):
         return a is b
 
 
+GIVEN_DT = weakref.WeakKeyDictionary()      # signal object -> the dt its constructor was given (the caller's step)
+
+
+def _post_init(args, kwargs, result, pre):
+    """Signal.__init__(self, values, dt, ...): the object must hold exactly the step it was given; the defining
+    integrals of every later measure on this object are evaluated with THAT step, not with what the object stores."""
+    self = args[0]
+    given = args[2] if len(args) > 2 else kwargs.get('dt')
+    try:
+        g = float(given)
+    except Exception:
+        return
+    if not (g > 0) or not np.isfinite(g):
+        return
+    try:
+        GIVEN_DT[self] = g
+    except TypeError:
+        pass
+    try:
+        kept = float(self.dt).hex() == g.hex() and type(self.dt) is type(given)
+    except Exception:
+        kept = False
+    if kept:
+        CTX.ok(DT_KEPT)
+    else:
+        vals = np.asarray(self.values)
+        CTX.violation(DT_KEPT, {'fn': 'constructor', 'sigcls': type(self).__name__, 'acc': vals[:64], 'dt': g,
+                                'dt_kind': _dt_kind(given), 'stored': repr(self.dt)},
+                      '%s(values, dt=%r) stores dt=%r' % (type(self).__name__, given, self.dt))
+
+
+def _caller_dt(asig):
+    try:
+        return GIVEN_DT.get(asig, float(asig.dt))
+    except TypeError:
+        return float(asig.dt)
+
+
 def _pre(args, kwargs):
     """Snapshot of the object at call entry: the post-condition is judged against what the function was given,
     whatever the call (or an earlier one) did to the object; the purity clause compares the whole instance state."""
     asig = _sig(args, kwargs)
-    return {'obj': asig, 'acc': np.array(asig.values, copy=True), 'dt': float(asig.dt),
+    return {'obj': asig, 'acc': np.array(asig.values, copy=True), 'dt': _caller_dt(asig),
             'state': {k: _snap_value(v) for k, v in vars(asig).items()}}
 
 
@@ -376,6 +416,7 @@ def install(ctx):
     import eqsig
     for key, name in FN.items():
         attach.wrap(eqsig.im, name, _mk_post(key), pre=_pre)
+    attach.wrap_method(eqsig.Signal, '__init__', _post_init)
 
 
 # ---------------------------------------------------------------------------------------------------- histories
@@ -415,7 +456,7 @@ def _apply(ctx, eqsig, asig, op, out, exact=False):
             out[key] = np.asarray(r, dtype=float)
             return r
         if kind == 'stats':
-            acc0, dt0 = np.array(asig.values, copy=True), float(asig.dt)
+            acc0, dt0 = np.array(asig.values, copy=True), _caller_dt(asig)
             asig.generate_cumulative_stats()
             ctx.observe('object.generate_cumulative_stats-call')
             rec = _real_record(acc0)
@@ -445,7 +486,7 @@ def _apply(ctx, eqsig, asig, op, out, exact=False):
     except Exception as e:
         if kind == 'call' and np.asarray(asig.values).dtype.kind == 'c':
             ctx.observe('complex-typed record (not judged)')
-        elif kind == 'call' and op[1] == 'cavdp' and not cavdp_in_quantifier(np.real(np.asarray(asig.values)).astype(float), float(asig.dt))[0]:
+        elif kind == 'call' and op[1] == 'cavdp' and not cavdp_in_quantifier(np.real(np.asarray(asig.values)).astype(float), _caller_dt(asig))[0]:
             ctx.observe('cavdp.out-of-quantifier-call-raised')      # e.g. after a shorter reset: under 2 s
         elif kind == 'call':
             clause = 'cavdp.final==windows+-panel' if op[1] == 'cavdp' else op[1] + '.length'
@@ -593,7 +634,7 @@ def derived_case(ctx, eqsig, x, x2, dt, how, param):
             ctx.observe('derived.%s-raised(not judged by C09)' % how)
             return
         ctx.observe('derived.' + how)
-        inside = cavdp_in_quantifier(np.real(np.asarray(d_sig.values)).astype(float), float(d_sig.dt))[0]
+        inside = cavdp_in_quantifier(np.real(np.asarray(d_sig.values)).astype(float), _caller_dt(d_sig))[0]
         out = {}
         for k in QUAD_KEYS + (['cavdp'] if inside else []):
             _apply(ctx, eqsig, d_sig, ['call', k], out)
